@@ -161,7 +161,7 @@ Proof.
   destruct (is_lazy (i_k i)).
   - intros s e s' H. discriminate.
   - apply rc_bind_final; [apply rc_db_update|intros _].
-    destruct (cache_values (i_k i)); [apply nr_upd_inst|apply nr_ret].
+    destruct (cache_values (i_k i) && negb (i_expired i)); [apply nr_upd_inst|apply nr_ret].
 Qed.
 
 Lemma rc_so_set o kvs : raise_clean (so_set o kvs).
@@ -172,7 +172,7 @@ Proof.
   - intros s e s' H. discriminate.
   - apply rc_bind_final.
     + destruct (as_dict kvs); [apply rc_ret|apply rc_db_update].
-    + intros _. destruct (cache_values (i_k i)); [apply nr_upd_inst|apply nr_ret].
+    + intros _. destruct (cache_values (i_k i) && negb (i_expired i)); [apply nr_upd_inst|apply nr_ret].
 Qed.
 
 Lemma rc_so_sync_update o : raise_clean (so_sync_update o).
@@ -183,11 +183,17 @@ Proof.
   apply rc_bind_final; [apply rc_db_update|intros _; apply nr_upd_inst].
 Qed.
 
-Lemma rc_so_destroy o : raise_clean (so_destroy cfg o).
+Lemma nr_cache_purge k id : no_raise (cache_purge k id).
+Proof.
+  unfold cache_purge. apply nr_bind; [apply nr_gets|intros c].
+  destruct (negb (c_present c)); [apply nr_ret|apply nr_set_cch].
+Qed.
+
+Lemma rc_so_destroy o : raise_clean (so_destroy o).
 Proof.
   unfold so_destroy. apply rc_bind; [apply rc_gets|apply rol_gets|intros i].
   apply rc_bind_final; [apply rc_db_delete|intros _].
-  apply nr_bind; [apply nr_upd_inst|intros _; apply nr_cache_expire].
+  apply nr_bind; [apply nr_upd_inst|intros _; apply nr_cache_purge].
 Qed.
 
 Lemma rc_with_handle {A} h (f : nat -> M A) : (forall o, raise_clean (f o)) -> raise_clean (o <- handle h ;; f o).
